@@ -29,7 +29,7 @@ BRANCHES = ["grow_empty", "grow_contig", "grow_wrapped", "wrap", "wrap_after_dra
 
 _RE_HITS = re.compile(r'"RING-HITS",\s*<<([\d,\s]*)>>', re.S)
 _RE_DRIFT = re.compile(r'"RING-DRIFT at line", (\d+)')
-PART_LINES = 50000
+PART_LINES = 45000
 # Many TLC processes run side by side: cap every JVM (the default max heap is a quarter of the machine's RAM and the
 # parallel collector lets it fill up before collecting; 16 trace validators would take ~70 GB between them).
 JVM_SMALL = {"JAVA_TOOL_OPTIONS": "-Xmx1g -XX:ParallelGCThreads=2"}        # a 50k-line trace part validates in < 1 GB
@@ -188,6 +188,12 @@ def run(sc, tier, seed):
         cover_files = [f for f in tf if os.path.basename(f) == "time_cover.ndjson"]
         time_files = [f for f in tf if os.path.basename(f).startswith("time_") and f not in cover_files]
         count_files = [f for f in tf if os.path.basename(f).startswith("count_")]
+        # the count traces are few: one file, one TLC process
+        merged = os.path.join(out, "count_all.ndjson")
+        with open(merged, "w") as mf:
+            for f in sorted(count_files):
+                mf.write(open(f).read())
+        count_files = [merged]
         val = validate(sc, [("cover inputs", "WindowTraceMC.tla", "WindowTrace.cfg", cover_files),
                             ("time windows", "WindowTraceMC.tla", "WindowTrace.cfg", time_files),
                             ("count windows", "WindowCountTraceMC.tla", "WindowCountTrace.cfg", count_files)],
